@@ -222,14 +222,19 @@ def _dataclass_wrapper(tree):
         raise Unrecognised("DataclassWrapper.__init__: the field kind chain")
     karms, kels = if_chain(kinds[0])
     first = [unparse(x) for x in karms[0][1]]
-    _expect(first, ["field_wrapper = self.field_wrapper_class(field, parent=self, prefix=prefix)",
-                    "if field_default is not dataclasses.MISSING:\n    field_wrapper.set_default(field_default)",
-                    "self.fields.append(field_wrapper)"], "DataclassWrapper.__init__: choice / sub-parser field")
+    always = "if field_default is not dataclasses.MISSING:\n    field_wrapper.set_default(field_default)"
+    guarded = ("if field_default is not dataclasses.MISSING and (not ('subgroups' in field.metadata and "
+               "is_dataclass_instance(field_default))):\n    field_wrapper.set_default(field_default)")
+    if len(first) != 3 or first[1] not in (always, guarded):
+        raise Unrecognised(f"DataclassWrapper.__init__: choice / sub-parser field: {first}")
+    push_instance = first[1] == always   # a subgroup field takes the (dataclass-valued) attribute of a default instance
+    _expect([first[0], first[2]], ["field_wrapper = self.field_wrapper_class(field, parent=self, prefix=prefix)",
+                                   "self.fields.append(field_wrapper)"], "DataclassWrapper.__init__: choice / sub-parser field")
     _expect([unparse(x) for x in kels],
             ["field_wrapper = self.field_wrapper_class(field, parent=self, prefix=self.prefix)",
              "if field_default is not dataclasses.MISSING:\n    field_wrapper.set_default(field_default)",
              "self.fields.append(field_wrapper)"], "DataclassWrapper.__init__: plain field")
-    return True
+    return True, push_instance
 
 
 def _field_wrapper(tree):
@@ -387,7 +392,7 @@ def emit(repo: str) -> str:
     r = _resolve_subgroups(parsing)
     main_abbrev = _main_abbrev(parsing)
     report_ns = _remove_from_namespace(parsing)
-    partial_kw = _dataclass_wrapper(dw)
+    partial_kw, push_instance = _dataclass_wrapper(dw)
     preset_first = _field_wrapper(fw)
     mkeys = _subgroups_fn(sg)
     args = "sub_abbrev_gen main_abbrev_gen partial_kw_gen inst_default_gen preset_wins_gen loop_breaks_gen report_ns_gen"
@@ -399,7 +404,8 @@ def emit(repo: str) -> str:
         f"Definition inst_default_gen : bool := {cb(r['inst_default'])}.       (* frozen instance -> default=instance, partial(dataclasses.replace, instance) *)\n"
         f"Definition field_default_preset_first_gen : bool := {cb(preset_first)}.   (* FieldWrapper.default: `_default` before `subgroup_default` *)\n"
         f"Definition round_asserts_default_gen : bool := {cb(r['asserts_default'])}.    (* assert argument_options['default'] is subgroup_default *)\n"
-        "Definition preset_wins_gen : bool := field_default_preset_first_gen && round_asserts_default_gen.\n"
+        f"Definition subgroup_field_takes_instance_default_gen : bool := {cb(push_instance)}.   (* DataclassWrapper pushes a default instance's attribute into a subgroup FieldWrapper *)\n"
+        "Definition preset_wins_gen : bool := subgroup_field_takes_instance_default_gen && field_default_preset_first_gen && round_asserts_default_gen.\n"
         f"Definition loop_breaks_gen : bool := {cb(r['loop_breaks'])}.        (* `if not unresolved_subgroups: break` ends the itertools.count() loop *)\n"
         f"Definition report_ns_gen : bool := {cb(report_ns)}.          (* namespace.subgroups[dest] = getattr(parsed_args, dest); delattr *)\n"
         "Definition resolves_conflicts_each_round_gen : bool := true.\n"
